@@ -298,6 +298,21 @@ func (m *ThrottleMon) Step(w *World, _ string) {
 			outstanding++
 		}
 	}
+	// Req.Throttled comes from the call stack of SendRequest (inside
+	// Throttle.Add, or inside the task Throttle.Done started). If callbacks
+	// have run but no request of this execution was ever attributed, the code
+	// has a shape the attribution does not know (requests made from somewhere
+	// else than the callback itself): the accounting is skipped, not failed.
+	attributed := false
+	for _, r := range w.MQ.Requests() {
+		if r.Throttled {
+			attributed = true
+			break
+		}
+	}
+	if !attributed {
+		return
+	}
 	if running != outstanding {
 		w.Fail("C19", "slot-not-released", "throttles have %d running slot(s) but %d request(s) made through them are unanswered (%d callbacks waiting): an answer did not release its slot", running, outstanding, queued)
 	}
